@@ -92,7 +92,8 @@ func (s *store) Create(key string, sizeBytes uint64) (*File, error) {
 
 func (s *store) reserveSpace(space uint64) bool {
 	// TODO - consider whether it's a worth optimization to check if we can evict enough data BEFORE we start evicting, as to prevent evicting needlessly.
-	for s.size+space > s.capacity {
+	// Overflow-safe form of s.size+space > s.capacity.
+	for space > s.capacity || s.size > s.capacity-space {
 		if s.evictQueue.Len() == 0 {
 			return false
 		}
